@@ -29,6 +29,7 @@ def main():
         assert a.returncode == 0, a.stderr
         r = sh(f'/venv/bin/python {port} {wo}')
         print(ident, r.stdout.strip(), r.stderr.strip()[-200:])
+        assert r.returncode == 0, 'the port script failed: nothing rebased'
         files = sh('git diff --name-only', cwd=wo).stdout.split()
         for f in files:
             sh(f'cp {wo}/{f} {wn}/{f}')
